@@ -170,6 +170,15 @@ def packet_families(rng, tier, scale=1.0):
     two += b"\xc0" + bytes([o1 + 16]) + struct.pack(">HHIH", 1, 1, 1, 4) + b"\1\2\3\4"
     two += b"\xc0" + bytes([o1]) + struct.pack(">HHIH", 1, 1, 1, 4) + b"\1\2\3\4"  # two pointers at each other
     out.append(("loop", two))
+    # names and records beyond offset 65535 (16-bit arithmetic anywhere would wrap): a record placed at 65535..65548, and a record
+    # whose data length is 65526..65535 followed by another record
+    for at in ((65535, 65536, 65548) if tier == "quick" else (65534, 65535, 65536, 65537, 65541, 65548, 70000, 81919)):
+        out.append(("beyond-64k", G.jumbo_packet(at)))
+    for rl in ((65530,) if tier == "quick" else (65525, 65526, 65530, 65535)):
+        out.append(("jumbo-rdlen", G.jumbo_packet(None, big_rdlen=rl)))
+    for T in (255, 256, 257, 512):
+        for b in G.label_at_packets(T):
+            out.append(("label-at-%d" % T, b))
     if tier == "thorough":
         big = bytearray(G.chain_packet(16, tail_records=4000))
         out.append(("large", bytes(big)))  # > 65535 bytes
@@ -182,6 +191,7 @@ def packet_families(rng, tier, scale=1.0):
 
 
 class C01(Prop):
+    release_too = True
     id = "C01"
     rule = ("P: DNSSector::parse on generated packets (valid under none/greedy/random/chain pointer layouts; one-clause-at-a-time "
             "boundary damage; arbitrary bytes; pointer loops/chains; >65535 bytes in thorough); K/N: the two public name checkers on "
@@ -264,6 +274,7 @@ class C01(Prop):
 
 
 class C02(Prop):
+    release_too = True
     id = "C02"
     rule = ("P: DNSSector::parse on the packet families of C01 (valid under every pointer layout; one-clause-at-a-time boundary damage: "
             "63/64-byte labels, 255/256-byte names, 16/17 pointers, forward/self/root pointers, pointers into the header, bad characters, "
@@ -318,6 +329,7 @@ class C02(Prop):
 
 
 class C18(Prop):
+    release_too = True
     id = "C18"
     rule = ("P cases as for C01 plus families built to maximise pointer following (k records each naming through a 16-hop chain, "
             "maximal 255-byte names shared by all records, dense empty-option lists, runs of back-to-back pointers in opaque data named by every record), sizes doubling up to 65535 bytes. The model's "
@@ -665,10 +677,17 @@ def special_valid(rng):
             cnt = [0, 0, 0]
             cnt[sec] = 2
             out.append(struct.pack(">HHHHHH", 5, 0x8180, 1, *cnt) + Qw + rrb(G.wire_name(q), t, rd) + rrb(wp, 1, b"\1\2\3\4"))
+    # a label starting at an offset whose low byte is 0xff / 0x00 / 0x01, named by a pointer from every kind of name
+    for T in (255, 256, 257, 512, 768):
+        out += G.label_at_packets(T)
+    # beyond 64 KiB: a record after offset 65535, a record with a data length of 65530
+    out.append(G.jumbo_packet(65536))
+    out.append(G.jumbo_packet(None, big_rdlen=65530))
     return [(x, decode_or_none(x)) for x in out if decode_or_none(x) is not None]
 
 
 class C03(Prop):
+    release_too = True
     id = "C03"
     rule = ("accepted packets (random messages under none/greedy/random/chain pointer layouts; hand-built: OPT first/middle/last/absent with "
             "0-3 options, 1/8/15/16-hop chains, pointers into rdata names and into the header, root and 255-byte names): walk the question, "
@@ -809,6 +828,7 @@ class C04(Prop):
 
 
 class C05(Prop):
+    release_too = True
     id = "C05"
     rule = ("accepted packets as for C03; for each, Compress::uncompress_with_previous_offset at EVERY record boundary (start of every record "
             "and end of packet), plus uncompress of the canonical output again (stability). Expected output = the canonical pointer-free "
@@ -926,6 +946,41 @@ class C13(Prop):
                 sec = rng.choice(["an", "ns", "ar"])
                 cases.append(Case("y%d" % k, "\t".join(["P," + hx(BASE_RESPONSE), "I,%s,%s" % (sec, hx(text)), "fp", "v", "b"]),
                                   {"family": "insert/" + r.t, "rr": T.wire(r).hex(), "sec": sec}))
+                k += 1
+        # combinations of two limits: owner names of 1 .. 253 text bytes x the longest data each type allows
+        def name_of_text_len(L):
+            labels = []
+            while L > 0:
+                k = min(60, L)
+                if L - k == 1:
+                    k -= 1
+                labels.append(b"x" * k)
+                L -= k + 1
+            return labels
+        # (the encoder's limit is 253 bytes of wire name = 251 bytes of text without a final dot; 252 and 253 must be refused)
+        grid_owner = (1, 233, 234, 251, 252) if tier == "quick" else (1, 100, 232, 233, 234, 235, 240, 250, 251, 252, 253)
+        grid_txt = (3570, 3571, 3825, 3826) if tier == "quick" else (255, 3569, 3570, 3571, 3600, 3824, 3825, 3826, 4000)
+        for L in grid_owner:
+            for N in grid_txt:
+                r = T.rand_record(rng, t="TXT")
+                r.name, r.name_trailing = name_of_text_len(L), False
+                r.txt = bytes(rng.randint(97, 122) for _ in range(N))
+                text = T.render(rng, r)
+                ok = T.grammar_ok(r) and L <= 251
+                cases.append(Case("y%d" % k, "Y," + hx(text), {"family": "grid/TXT", "expect": T.wire(r).hex() if ok else None,
+                                                               "reject": not ok, "text": text.decode("latin1")[:200]}))
+                k += 1
+            for t in ("NS", "MX", "SOA", "DS", "A", "AAAA"):
+                r = T.rand_record(rng, t=t, boundary=True)
+                r.name, r.name_trailing = name_of_text_len(L), False
+                if t in ("NS", "MX"):
+                    r.target, r.target_trailing = name_of_text_len(rng.choice([1, 250, 251])), False
+                if t == "SOA":
+                    r.ns, r.contact = name_of_text_len(rng.choice([120, 250, 251])), name_of_text_len(rng.choice([120, 250, 251]))
+                text = T.render(rng, r)
+                ok = T.grammar_ok(r) and L <= 251
+                cases.append(Case("y%d" % k, "Y," + hx(text), {"family": "grid/" + t, "expect": T.wire(r).hex() if ok else None, "reject": L > 251,
+                                                               "text": text.decode("latin1")[:200]}))
                 k += 1
         m = 300 if tier == "quick" else 8000
         alphabet = b" \t.0123456789aAzZ_-\"\\():INinTXAMSODCPRtxamsodcpr"
@@ -1195,6 +1250,32 @@ class HistProp(Prop):
 
     def finish(self, i, first, bld, fam):
         return Case("h%d" % i, bld.line(first), {"family": fam, "steps": bld.steps, "a0": None})
+
+    def special_qtype_family(self, rng, k0):
+        """Questions whose QTYPE is the number of a record type the library treats specially (OPT = 41, SOA, MX, NS, DNAME, 0, 65535),
+        in packets with and without a real OPT record: delete the question, put one back, look at everything."""
+        out = []
+        q = [b"q", b"example"]
+        for qt in (41, 6, 15, 2, 39, 0, 65535):
+            for with_opt in (True, False):
+                ar = [G.RR([b"a"] + q, 1, 1, 9, ("raw", bytes([10, 0, 0, 1])))]
+                if with_opt:
+                    ar.insert(rng.randint(0, 1), G.RR([], 41, 1232, 0x8000, ("opt", [(10, b"cookie12")])))
+                b, _ = G.encode(rng, G.Msg(rng.getrandbits(16), 0x8180, q, qt, 1, an=[G.RR(q, 1, 1, 5, ("raw", bytes([1, 2, 3, 4])))], ar=ar),
+                                rng.choice(["none", "greedy"]))
+                a = H.decode_bytes(b)
+                if a is None:
+                    continue
+                bld = H.Builder(rng, a, set())
+                if rng.random() < 0.5:
+                    bld.getter_op(rng.choice(["q0", "q1"]))
+                bld.question_walk_op("X")
+                bld.second_question_op()
+                bld.getter_op("q0")
+                bld.walk_op(si=2, mode="read", incl=True)
+                bld.walk_op(si=rng.randrange(3), mode="mixed")
+                out.append(self.finish(k0 + len(out), "P," + hx(b), bld, "special-qtype"))
+        return out
 
     def data_pointer_family(self, rng, k0):
         """Known-finding class data-pointer: TTL / address writes on records whose bytes a later name is read through."""
@@ -1543,6 +1624,7 @@ class C08(HistProp):
                 fam = "class-opt-ttl"
             cases.append(self.finish(i, first, bld, fam))
         cases += self.data_pointer_family(rng, len(cases))
+        cases += self.special_qtype_family(rng, len(cases))
         return cases
 
 
@@ -1573,10 +1655,12 @@ class C09(HistProp):
                 self.random_step(rng, bld, {"header": 2, "insert": 4, "rename": 2, "walk": 8, "qwalk": 3, "recompute": 1, "getter": 3})
             cases.append(self.finish(i, first, bld, "effects"))
         cases += self.data_pointer_family(rng, len(cases))
+        cases += self.special_qtype_family(rng, len(cases))
         return cases
 
 
 class C10(HistProp):
+    release_too = True
     id = "C10"
     clauses = {"err", "size"}
     rule = ("error-provoking histories: second question, malformed record text (field-wise damaged), invalid / over-long / pointer-bearing "
@@ -1625,6 +1709,16 @@ class C10(HistProp):
                 for _ in range(3):
                     bld.insert_op()
                 cases.append(self.finish(k, "P," + hx(b), bld, "size-limit"))
+                k += 1
+        # records built with RR::new (any data length up to 65535) handed to insert_rr: 8 KB, and around the 16-bit limits of the
+        # record's own length (name + 10 + data = 65535, 65536, 65537 ...)
+        for rdlen in ([100, 8100, 8192, 30000, 65520, 65522, 65523, 65524, 65535] if tier == "quick" else
+                      [0, 1, 100, 8000, 8100, 8170, 8192, 8193, 30000, 65500, 65519, 65520, 65521, 65522, 65523, 65524, 65525, 65530, 65534, 65535]):
+            for first in ("P," + hx(BASE_RESPONSE), "P," + hx(big_plain_packet(rng, 8150)) if rdlen > 60000 else "Q,%s,1,7" % hx(b"example.com")):
+                sec = rng.choice(["an", "ns", "ar"])
+                ops = [first, "v", "fp", "ca", "b", "sp,1", "v", "fp", "ca", "b", "IR,%s,%s,16,%d" % (sec, hx(b"big.example.com"), rdlen), "v", "fp", "ca", "b"]
+                st = [H.Step("sp,1", "header", None, None, None, {}), H.Step(ops[10], "insert-too-large" if rdlen > 8000 else "insert", None, None, "any" if rdlen > 8100 else None, {})]
+                cases.append(Case("h%d" % k, "\t".join(ops), {"family": "raw-record-size", "steps": st, "a0": None}))
                 k += 1
         for usz in ([8000, 8100, 8150, 8180, 8192, 8300] if tier == "quick" else [7900, 8000, 8100, 8150, 8170, 8180, 8185, 8190, 8192, 8200, 8300, 9000]):
             for rep in range(3 if tier == "quick" else 8):
@@ -1733,7 +1827,11 @@ class C11(HistProp):
                 bld.insert_op()
             elif pre == "V" and nonempty:
                 bld.walk_op(si=rng.choice(nonempty), mode="uncompress")
+            if rng.random() < 0.6:
+                bld.getter_op(rng.choice(["q0", "q1"]))      # the question cache is filled before the question goes away
             bld.question_walk_op("X")
+            for g in rng.sample(["q0", "q1", "q2", "qt"], 2):    # an emptied section reads as absent through every getter
+                bld.getter_op(g)
             bld.question_walk_op("read")
             for si in range(3):
                 bld.walk_op(si=si, mode="read", incl=True)
@@ -1791,6 +1889,16 @@ def plain_messages(rng, n, tier):
         recs = big + [A([b"far", b"away", b"org"], 1), A([b"x", b"far", b"away", b"org"], 2), A(q, 3)]
         b, _ = G.encode(rng, G.Msg(1, 0x8180, q, 1, 1, an=recs), "none")
         out.append(("beyond-16383", b))
+    # names that differ only in a byte pair 0x20 apart that is NOT a letter pair (@/`, [/{, ]/}, ^/~, 0xC1/0xE1 ...): they are different
+    # names and must never share a pointer; next to them genuine case pairs (A/a, Z/z) that must
+    for c in (0x40, 0x5b, 0x5d, 0x5e, 0x41, 0x5a, 0xc1, 0xdf):
+        for where in (0, 1):
+            l1 = bytes([0x73, c, 0x31]) if where == 0 else bytes([c])
+            l2 = bytes([0x73, c ^ 0x20, 0x31]) if where == 0 else bytes([c ^ 0x20])
+            recs = [A([l1] + q, 1), A([l2] + q, 2), A([b"www", l2] + q, 3), A([b"www", l1] + q, 4),
+                    G.RR(q, 2, 1, 5, ("name", [l1] + q)), G.RR(q, 15, 1, 5, ("mx", 1, [l2] + q))]
+            b, _ = G.encode(rng, G.Msg(1, 0x8180, q, 1, 1, an=recs), "none")
+            out.append(("near-case-%02x" % c, b))
     # a new suffix first emitted at output offset exactly T, T around the 14-bit pointer limit, then reused: whole name and inner label
     for T in (range(16381, 16389) if tier == "quick" else range(16370, 16400)):
         for inner in (0, 4):
@@ -1820,7 +1928,7 @@ class C06(Prop):
     id = "C06"
     rule = ("CU: Compress::compress then Compress::uncompress of the result, on accepted pointer-free packets: random messages; nested "
             "suffixes of depth 2..30; 31..70 distinct suffixes (table wrap, pinned first entry); suffixes of 120..200 bytes; mixed-case "
-            "duplicates; NS/CNAME/PTR/MX/SOA/DNAME data; OPT in every position; a new suffix (whole name or inner label) first emitted at every output offset 16381..16388 (thorough: 16370..16399) and reused afterwards; names beyond offset 16383. Oracle: output accepted, "
+            "duplicates; names differing only in a non-letter byte pair 0x20 apart (@/`, [/{, ]/}, ^/~, 0xC1/0xE1); NS/CNAME/PTR/MX/SOA/DNAME data; OPT in every position; a new suffix (whole name or inner label) first emitted at every output offset 16381..16388 (thorough: 16370..16399) and reused afterwards; names beyond offset 16383. Oracle: output accepted, "
             "not longer than the input, same header / record sequence / contents with names equal up to ASCII case and the question name "
             "byte-identical, decompression gives back the input up to name case. Non-trivial: output shorter than input; distinct = "
             "distinct packet.")
@@ -2294,6 +2402,15 @@ class C17(Prop):
             add("rename-after-failed-rename", "R,%s,%s,%s,1" % (hx(xb), hx(G.wire_name([b"new", tld])), hx(G.wire_name([b"other", tld]))), opy)
             xc, _ = G.encode(rng, G.Msg(9, 0x8180, [b"www", b"other", tld], 1, 1, an=xrecs), "greedy")
             add("uncompress-after-failed-rename", "U,%s,12" % hx(xc), opy)
+        # y = an operation on a packet of 33 .. 65 KB (buffers kept between calls only above some capacity), x = a small one
+        for size in ((33000, 64700) if tier == "quick" else (16000, 32000, 33000, 34000, 50000, 64700)):
+            yb = big_plain_packet(rng, size)
+            xb = rng.choice(plain)
+            add("small-after-jumbo", "C," + hx(xb), "C," + hx(yb))
+            add("small-after-jumbo", "U,%s,12" % hx(rng.choice(comp)), "U,%s,12" % hx(yb))
+            add("small-after-jumbo", "R,%s,%s,%s,1" % (hx(xb), hx(G.wire_name([b"new"])), hx(G.wire_name([b"com"]))),
+                "R,%s,%s,%s,1" % (hx(yb), hx(G.wire_name([b"new"])), hx(G.wire_name([b"example"]))))
+            add("small-after-jumbo", "P," + hx(rng.choice(comp)), "P," + hx(yb))
         ops = lambda: rng.choice(["P," + hx(rng.choice(comp)), "U,%s,12" % hx(rng.choice(comp)), "C," + hx(rng.choice(plain)),
                                   "R,%s,%s,%s,1" % (hx(rng.choice(comp + plain)), hx(G.wire_name([b"new", b"name"])), hx(G.wire_name([rng.choice([b"com", b"org", b"example"])])))])
         for i in range(n):
